@@ -201,6 +201,11 @@ func (e *c16env) runRow(res *verifrt.Result, idx int, row c16row) {
 		os.WriteFile(filepath.Join(defDir, "mode"), []byte("on 2020-01-01"), 0o666)
 	}
 	os.MkdirAll(tdir, 0o777)
+	if idx%4 == 1 {
+		// the user has asked for debug logs (a debug/ directory exists): with
+		// mode off those are not written either
+		os.MkdirAll(filepath.Join(tdir, "debug"), 0o777)
+	}
 	if row.LocalDir {
 		os.MkdirAll(filepath.Join(tdir, "local"), 0o777)
 		os.WriteFile(filepath.Join(tdir, "local", "weekends"), []byte("2\n"), 0o666)
